@@ -131,6 +131,24 @@ def c14_keyLikeImpls : List (Nat × Nat) :=
   ((structs.filter fun s => names.contains s.name).flatMap fun s =>
     (s.derives.filter fun d => forbiddenForKeys.contains d).map fun d => (s.name, d))
 
+/-- hold tokens: the structs whose `Drop` releases a raw lock (`MutexRef`, `RwLockReadRef`,
+`RwLockWriteRef`) and the structs that contain one by value (`PoisonRef`-style wrappers hold a
+generic guard, the key-holding guards hold a `*Ref`) -/
+def releaseOps : List Nat := [Sym.raw_unlock_write, Sym.raw_unlock_read]
+def holdTokens : List Nat :=
+  let base := (implsOfTrait Sym.Drop).filterMap fun i =>
+    if i.fns.any fun f => f.callees.any fun c => releaseOps.contains c then some i.selfTy.head else none
+  base ++ (structs.filter fun s => !s.isEnum && s.fields.any fun f => base.contains f.ty.head && !f.ty.isRef).map (·.name)
+
+/-- a hold must not be duplicable or conjurable: no `Clone`/`Copy`/`Default` for a hold token -/
+def c14_holdTokenImpls : List (Nat × Nat) :=
+  (impls.filterMap fun i =>
+    if holdTokens.contains i.selfTy.head && !i.selfTy.isRef &&
+       [Sym.Clone, Sym.Copy, Sym.Default].contains (traitName i)
+    then some (i.selfTy.head, traitName i) else none) ++
+  ((structs.filter fun s => holdTokens.contains s.name).flatMap fun s =>
+    (s.derives.filter fun d => [Sym.Clone, Sym.Copy, Sym.Default].contains d).map fun d => (s.name, d))
+
 /-- key fields that are not private, and a `ThreadKey` without the `*const ()` marker -/
 def c14_keyFields : List (Nat × Nat) :=
   ((structs.filter fun s => s.name == Sym.ThreadKey || keyHolders.any (·.name == s.name)).flatMap fun s =>
@@ -170,9 +188,15 @@ def acquiringCallees : List Nat :=
 /-- safe public inherent functions that call an acquiring operation (directly, or through the
 scoped helpers) but take no key (by value, or as `impl Keyable`) -/
 def c14_acquiringWithoutKey : List (Nat × Nat) :=
-  inherentImpls.flatMap fun i =>
+  (inherentImpls.flatMap fun i =>
     (i.fns.filter fun f =>
       f.vis == 2 && !f.isUnsafe && !f.testOnly && !hasKeyParam f &&
+      f.callees.any fun c => acquiringCallees.contains c).map fun f => (i.selfTy.head, f.name)) ++
+  -- … and safe trait methods (Clone, Default, From, Deref, …: callable by anybody who has the
+  -- value, no key involved) that acquire: e.g. a `Clone` for a hold token that takes another lock
+  (impls.filter fun i => i.trait_.isSome).flatMap fun i =>
+    (i.fns.filter fun f =>
+      !f.isUnsafe && !f.testOnly && !hasKeyParam f &&
       f.callees.any fun c => acquiringCallees.contains c).map fun f => (i.selfTy.head, f.name)
 
 /-- functions that hand out a reference to a key, or return a key by value without taking a key
